@@ -132,6 +132,22 @@ func printfIdxOf(p *Prog, known map[*ssa.Function]printfInfo, c *ssa.CallCommon)
 		/* Call of a function value: follow to a closure if we can. */
 		if cf, _ := closureOf(resolveLocalFunc(c.Value)); nil != cf {
 			f = cf
+		} else if mc, isMC := p.resolveUp(c.Value).(*ssa.MakeClosure); isMC {
+			/* A function handed in by the only caller: s.ErrorLogf given
+			to a method made a plain function. */
+			bf, _ := mc.Fn.(*ssa.Function)
+			if nil == bf || !strings.HasSuffix(bf.Name(), "$bound") {
+				return -1, ""
+			}
+			mo, _ := bf.Object().(*types.Func)
+			if nil == mo {
+				return -1, ""
+			}
+			m := p.SSA.FuncValue(mo)
+			if pi, ok := known[m]; ok && pi.fmtIdx >= 1 {
+				return pi.fmtIdx - 1, fnName(m)
+			}
+			return -1, ""
 		} else {
 			return -1, ""
 		}
